@@ -61,6 +61,95 @@ class FailGen(gen_tmpl.Gen):
         return n
 
 
+def gen_fail_skeleton(rng, prefix):
+    """templates made of text lines, fallible `!=` lines, @children and @render with / without blocks: the shape the Coq
+    model Runtime/Render.v speaks about; returns (abstract file, program in the model's encoding)"""
+    n = rng.randint(2, 5)
+    names = ["%sS%d" % (prefix, i) for i in range(n)]
+    counter = [0]
+
+    def block(depth, allowed):
+        nodes, enc = [], []
+        for _ in range(rng.randint(1, 3)):
+            k = rng.random()
+            if k < 0.25 or depth > 3:
+                counter[0] += 1
+                t = "t%d" % counter[0]
+                nodes.append(("text", [("s", t)]))
+                enc.append("L" + common.hx(t + "\n"))
+            elif k < 0.5:
+                site = rng.randint(0, 3)
+                nodes.append(("uscript", may_fail(site)))
+                enc.append("D%d:%s" % (site, common.hx("[ok%d]\n" % site)))
+            elif k < 0.65 or not allowed:
+                nodes.append(("children",))
+                enc.append("C")
+            else:
+                j = rng.choice(allowed)
+                if rng.random() < 0.6:
+                    b, e = block(depth + 1, allowed)
+                    nodes.append(("render", names[j], b))
+                    enc.append("B%d(%s)" % (j, ",".join(e)))
+                else:
+                    nodes.append(("render", names[j], None))
+                    enc.append("R%d" % j)
+        return nodes, enc
+
+    templates, prog = [], []
+    for i in range(n):
+        body, enc = block(1, list(range(i)))
+        templates.append({"name": names[i], "layout": True, "body": body})
+        prog.append(",".join(enc))
+    return {"package": "main", "templates": templates}, "|".join(prog)
+
+
+def skeleton_correspondence(chk, rng, n):
+    """the Coq model of Render (Runtime/Render.v) against the real compiler and runtime: same status, same bytes accepted
+    by the destination call by call, for every failing-site set tried and every destination behaviour"""
+    files, progs = {}, {}
+    for i in range(n):
+        f, prog = gen_fail_skeleton(rng, "R%d" % i)
+        files["r%d" % i] = f
+        progs["r%d" % i] = prog
+    b = lrender.make_batch(files)
+    try:
+        lrender.report_build_problems(chk, b, files)
+        base = gen_tmpl.gen_env(rng)
+        cases = []
+        for k, f in files.items():
+            if k in b.rejected or k in b.build_errors:
+                continue
+            for idx, t in enumerate(f["templates"]):
+                bits = ["0000"] + [("0" * s + "1" + "0" * (3 - s)) for s in range(4)] + ["".join(rng.choice("01") for _ in range(4))]
+                for fb in bits:
+                    for mode in (["buf", "fail1", "short1"] if fb == "0000" else ["buf", rng.choice(["fail1", "short1"])]):
+                        cases.append((k, idx, t["name"], fb, mode))
+        lines = []
+        for k, idx, name, fb, mode in cases:
+            env = copy.deepcopy(base)
+            env["Fail"] = [c == "1" for c in fb] + [False, False]
+            lines.append("render %s %s %s" % (name, mode, render.env_json(env, lrender.OBJS)))
+        res = b.run(lines)
+    finally:
+        b.close()
+    model = common.run_lines_parallel(common.DRIVER, ["rendermodel %d %s %s %s" % (idx, mode, fb, progs[k]) for k, idx, _, fb, mode in cases])
+    nbad = 0
+    for (k, idx, name, fb, mode), r, m in zip(cases, res, model):
+        st, w = render.parse_render(r)
+        mst, _, macc = m.partition(" ")
+        mw = [common.unhx(x) for x in macc.split(",")] if macc else []
+        chk.case("render-skeleton:" + progs[k] + str(idx) + fb + mode, nontrivial=(mst != "ok"))
+        chk.count("render-model-" + ("ok" if mst == "ok" else mst[:8]))
+        same_status = (st == "ok") == (mst == "ok") and st.startswith("err") == mst.startswith("err")
+        if not same_status or [bytes(x) for x in w] != [bytes(x) for x in mw]:
+            nbad += 1
+            if nbad <= 3:
+                chk.broke("correspondence", "L-RENDER", "Runtime/Render.v and the real compiler+runtime disagree", program=progs[k], entry=idx,
+                          failing_sites=fb, mode=mode, template=gen_tmpl.print_file(files[k]), impl=r[:300], model=m[:300])
+        else:
+            chk.traces += 1
+
+
 def run(chk):
     br = common.build_all()
     chk.proof_step(br)
@@ -156,6 +245,7 @@ def run(chk):
                 chk.traces += 1
         chk.samples = [{"template": gen_tmpl.print_file(cases[0][0])[:500], "entry": cases[0][1], "mode": cases[0][3], "result": res[0][:80]}]
         lrender.compile_correspondence(chk, files, ("cls", "perr", "gtext"))
+        skeleton_correspondence(chk, rng, 60 if quick else 1500)
     return chk.finish(level="proof", level_note=LEVEL_NOTE)
 
 
